@@ -9,7 +9,7 @@ set -u
 cd "$(dirname "$0")/.."
 BIN="$PWD/gensim/target/release/gensim"
 OUT=$(mktemp -d /tmp/c18-sens.XXXXXX)
-trap 'git -C /repo checkout -- . 2>/dev/null; rm -rf "$OUT"' EXIT
+trap 'git -C /repo checkout -- . 2>/dev/null; git -C /repo clean -fdq 2>/dev/null; rm -rf "$OUT"' EXIT
 if [ -n "$(git -C /repo status --porcelain --untracked-files=no)" ]; then
   echo "refusing to run: /repo has uncommitted changes" >&2; exit 2
 fi
@@ -39,7 +39,7 @@ for p in "${patches[@]}"; do
     got="exit$rc"; detail="$viol violation line(s); $first"
     if [ $rc -eq 1 ] && [ -n "$rp" ]; then
       "$BIN" replay "$rp" --quiet 1 >"$OUT/replay.log" 2>&1; r1=$?
-      git -C /repo checkout -- .
+      git -C /repo checkout -- .; git -C /repo clean -fdq
       ./run.sh setup >/dev/null 2>&1
       "$BIN" replay "$rp" --quiet 1 >"$OUT/replay2.log" 2>&1; r2=$?
       detail="$detail | replay with change: exit $r1, after undo: exit $r2"
@@ -51,7 +51,7 @@ print('' if not m else 'minimised: %s->%s non-default decisions, %s->%s displace
       if [ $r1 -ne 1 ] || [ $r2 -ne 0 ]; then got="$got(replay!)"; fi
     fi
   fi
-  git -C /repo checkout -- .
+  git -C /repo checkout -- .; git -C /repo clean -fdq
   ok=1
   if [ $want = detect ] && [ "$got" != exit1 ]; then ok=0; fi
   if [ $want = silent ] && [ "$got" != exit0 ]; then ok=0; fi
